@@ -934,6 +934,7 @@ func (p mpkt) wire(salt int) []byte {
 			}
 		}
 	}
+	msg[6], msg[8], msg[10] = byte(cnt[0]>>8), byte(cnt[1]>>8), byte(cnt[2]>>8)
 	msg[7], msg[9], msg[11] = byte(cnt[0]), byte(cnt[1]), byte(cnt[2])
 	if !p.ok {
 		cut := 1 + salt%3
@@ -1035,6 +1036,74 @@ func runMDNSPkts(ps []mpkt) string {
 			time.Sleep(20 * time.Millisecond)
 		}
 		return mdnsDump(m, single)
+	})
+}
+
+
+// mdnsflood <cap> <n>: ONE response packet announcing n distinct hosts (more than the table holds when n > cap), then
+// a single late announcement. The reader must survive the flood: the late name is learned within the deadline, lookups
+// return, the table is bounded by the cap.
+func runMDNSFlood(n int) string {
+	return guard(20*time.Second, func() string {
+		conn, err := net.ListenUDP("udp4", &net.UDPAddr{IP: net.IPv4(127, 0, 0, 1)})
+		if err != nil {
+			return "ERR listen " + err.Error()
+		}
+		_ = conn.SetReadBuffer(4 << 20)
+		m := discovery.VerifNewMDNS()
+		go func() {
+			defer func() { recover() }()
+			discovery.VerifMDNSRead(m, conn)
+		}()
+		defer conn.Close()
+		snd, err := net.DialUDP("udp4", nil, conn.LocalAddr().(*net.UDPAddr))
+		if err != nil {
+			return "ERR dial " + err.Error()
+		}
+		defer snd.Close()
+		big := mpkt{ok: true}
+		for i := 0; i < n; i++ {
+			big.recs = append(big.recs, mrec{sec: 0, kind: "4", name: fmt.Sprintf("h%d.local.", i),
+				addr: fmt.Sprintf("10.%d.%d.%d", i/65536, (i/256)%256, i%256)})
+		}
+		w := big.wire(0)
+		if len(w) > 65000 {
+			return "bad-op"
+		}
+		if _, err := snd.Write(w); err != nil {
+			return "ERR write " + err.Error()
+		}
+		late := mpkt{ok: true, recs: []mrec{{sec: 0, kind: "4", name: "late.local.", addr: "10.250.250.250"}}}
+		type res struct{ names, addrs int }
+		done := make(chan res, 1)
+		go func() {
+			// everything below takes the table's lock: a reader stuck inside it never lets this finish
+			dl := time.Now().Add(6 * time.Second)
+			before := time.Now()
+			_, _ = snd.Write(late.wire(0))
+			for !discovery.VerifMDNSStamp(m, late.lastKey()).After(before) {
+				if time.Now().After(dl) {
+					done <- res{-1, -1}
+					return
+				}
+				time.Sleep(200 * time.Microsecond)
+			}
+			names, addrs, _, _ := discovery.VerifMDNSDump(m)
+			done <- res{len(names), len(addrs)}
+		}()
+		select {
+		case r := <-done:
+			if r.names < 0 {
+				return "STUCK the late announcement was not learned within 6 s"
+			}
+			l := 0
+			if names, _, _, _ := discovery.VerifMDNSDump(m); len(names[discovery.VerifPrepareHostLookup("late.local.")]) > 0 {
+				l = 1
+			}
+			return fmt.Sprintf("size=%d addrs=%d late=%d", r.names, r.addrs, l)
+		case <-time.After(8 * time.Second):
+			return "STUCK lookups on the mDNS table do not return (the reader holds its lock)"
+		}
 	})
 }
 
@@ -1161,6 +1230,13 @@ func runMDNSLine(c *Ctx, l string) bool {
 		}
 		f[1] = strconv.Itoa(discovery.VerifMDNSMaxEntries)
 		c.Emit(strings.Join(f, " "), runMDNSPkts(ps))
+	case len(f) == 3 && f[0] == "mdnsflood":
+		n, err := strconv.Atoi(f[2])
+		if err != nil {
+			return false
+		}
+		f[1] = strconv.Itoa(discovery.VerifMDNSMaxEntries)
+		c.Emit(strings.Join(f, " "), runMDNSFlood(n))
 	default:
 		return false
 	}
@@ -1183,6 +1259,15 @@ func init() {
 			case i < big:
 				c.Stat("case:pkt-big")
 				runMDNSLine(c, "mdnspkt 0 "+encPkts(genBigPkts(r, c)))
+			case i < 2*big+1:
+				// one packet alone beyond (or just at) the cap
+				capN := discovery.VerifMDNSMaxEntries
+				n := capN + r.Pick([]int{-1, 0, 1, 2, 50, 300})
+				if i == big {
+					n = capN + 50
+				}
+				c.Stat("case:flood")
+				runMDNSLine(c, "mdnsflood 0 "+strconv.Itoa(n))
 			case k < 7:
 				c.Stat("case:ops")
 				capN := r.Pick([]int{0, 1, 2, 2, 3, 3, 5, 8})
